@@ -436,7 +436,8 @@ def theorem_names(module_path):
             continue          # private helpers are not property theorems (and cannot be named from outside)
         m = re.match(r"\s*(?:@\[[^\]]*\]\s*)?(?:protected\s+)?theorem\s+(\S+)", line)
         if m:
-            names.append(".".join(ns + [m.group(1)]))
+            nm = m.group(1)
+            names.append(nm[len("_root_."):] if nm.startswith("_root_.") else ".".join(ns + [nm]))
     return names
 
 
